@@ -1,6 +1,6 @@
 """C01 each operation returns the region it names (partly decided: the finite tables every output edge is selected
 through, and the plumbing from the public entry points to them)."""
-from rules import booltables as bt, oprules, cerules, pirules
+from rules import booltables as bt, oprules, cerules, pirules, segrules
 
 LEVEL = 'other'
 EXPLANATION = __doc__
@@ -14,6 +14,10 @@ def run(ctx, rep):
     bt.check_atom_models(ctx, rep)
     # the tables classify sub-segments: they give the named region only if every segment is split where another one meets it
     pirules.check_endpoint_guards(ctx, rep)
+    # ... and two edges that cross are recognised as crossing: the classification crossing / parallel / collinear and the parameter
+    # ranges of intersection() (seed s97 turned a nearly parallel crossing into 'parallel'; the region right of it was lost)
+    segrules.check_ranges(ctx, rep)
+    segrules.check_algebra(ctx, rep)
     oprules.check_trivial(ctx, rep)
     oprules.check_forward(ctx, rep)
     oprules.check_pipeline(ctx, rep)
